@@ -144,7 +144,27 @@ def classify_method_extraction(src, start, end, new_src, new_name="extracted_q")
         if first is None and not carried:
             continue
         wk = "definite" if any(_binds_directly(st, v) for st in region) else "conditional"
-        ak = first if first else "loop-carried"
+        if first:
+            ak = first
+        else:
+            # where does the next iteration read the value: inside the region itself, or only elsewhere in the loop
+            if v not in read:
+                ak = "loop-carried-read-elsewhere-in-loop"
+            else:
+                mentions = sorted((node.lineno, node.col_offset, isinstance(node.ctx, ast.Load) or isinstance(getattr(node, "_aug", None), bool))
+                                  for n_, node in _names(region, (ast.Load, ast.Store)) if n_ == v)
+                # AugAssign targets are reads first although their ctx is Store
+                aug = {(t.target.lineno, t.target.col_offset) for st in region for t in ast.walk(st)
+                       if isinstance(t, ast.AugAssign) and isinstance(t.target, ast.Name) and t.target.id == v}
+                first_is_read = bool(mentions) and (mentions[0][2] or (mentions[0][0], mentions[0][1]) in aug)
+                # assignments evaluate their value before the target: a = a + 1 reads first
+                for st in region:
+                    for t in ast.walk(st):
+                        if isinstance(t, ast.Assign) and mentions and any(
+                                isinstance(x, ast.Name) and (x.lineno, x.col_offset) == (mentions[0][0], mentions[0][1]) for tg in t.targets for x in ast.walk(tg)):
+                            if any(isinstance(x, ast.Name) and x.id == v for x in ast.walk(t.value)):
+                                first_is_read = True
+                ak = "loop-carried-read-in-region-before-the-write" if first_is_read else "loop-carried-read-in-region-after-the-write"
         if first and first.endswith("store-only"):
             continue
         comp = any(isinstance(n, ast.comprehension) and any(isinstance(t, ast.Name) and t.id == v for t in ast.walk(n.target))
